@@ -431,13 +431,13 @@ def abs_reductions(ck, fb):
             s = cn.s(rets[0].get("x")) if len(rets) == 1 else ""
             lln = re.search(r"\[lambda@(\d+)\]", s)
             lam = [g for g in fb.fns.values() if g.kind == "lambda" and g.has_cfg and g.file == f.file and lln and g.line == int(lln.group(1))][:1]
-            m = re.fullmatch(r"abs\(\*(min_element|max_element)\(values_\.cbegin\(\), values_\.cend\(\), \[lambda@\d+\]\)\)", s)
+            m = re.fullmatch(r"(?:abs|abs_value)\(\*(min_element|max_element)\(values_\.cbegin\(\), values_\.cend\(\), \[lambda@\d+\]\)\)", s)
             if not m or len(lam) != 1:
                 raise AnalysisBroken("%s: %s is no longer abs(*std::%s(cbegin, cend, comparator)) (found '%s'): rule C19.abs cannot judge this formulation - re-audit" % (f.where, name, std, s[:90]))
             lc = Canon(lam[0])
             lrets = [x for b, i, x in lam[0].tops() if x.get("k") == "ret"]
             ls = lc.s(lrets[0].get("x")) if len(lrets) == 1 else ""
-            ok = m.group(1) == std and ls == "(abs(P0) < abs(P1))"
+            ok = m.group(1) == std and ls in ("(abs(P0) < abs(P1))", "(abs_value(P0) < abs_value(P1))")
             (ck.ok if ok else lambda r, w, t: ck.violate(r, w, t, "C19.abs:%s" % name))("C19.abs", f.where, "%s::%s = abs(*std::%s(all components, abs(a) < abs(b))) (found %s with comparator %s)" % (f.cls.replace("OpenVolumeMesh::Geometry::", ""), name, std, m.group(1), ls))
     ck.floor("abs_reductions", n, 4)
 
